@@ -1,6 +1,6 @@
 use std::io::{self, Write};
 
-use super::{write_description_field, write_other_fields};
+use super::{write_description_field, write_idx_field, write_other_fields};
 use crate::header::record::value::{Map, map::Filter};
 
 pub(crate) fn write_filter<W>(writer: &mut W, filter: &Map<Filter>) -> io::Result<()>
@@ -9,6 +9,7 @@ where
 {
     write_description_field(writer, filter.description())?;
     write_other_fields(writer, filter.other_fields())?;
+    write_idx_field(writer, filter.idx())?;
     Ok(())
 }
 
